@@ -27,6 +27,16 @@ CHECKS = {
              'Denote(model); alphabetical lists, both linearisations (parents and alias targets first) and closure (no forward '
              'reference left, every reachable type registered, acyclic inheritance) are checked on the real object graph.',
         ref='3.3, 4 (C02)'),
+    'C03': dict(
+        technique='TLA+ specs StoneLex (line-level lexer machine, model-checked) and StoneTok (token strings and token-edit actions) enumerated by TLC; every text replayed through the real Lexer, specs_to_ir and the command line',
+        text='TLC enumerates every sequence of <= 3 (thorough 4) physical lines over a 33-letter alphabet and checks NoCrash, '
+             'LayoutInvariance and Balanced on the lexer machine; every string of <= 3 (thorough 5) token classes after a namespace '
+             'header; every single token edit (thorough: 20000 random 2-3 edit behaviours) of four seed specs covering examples, '
+             'patches, annotations, routes with attrs and versions, imports, enumerated subtypes. Each text is tokenised by the real '
+             'Lexer (skeleton and recorded errors must equal StoneLex!OpLex) and compiled: the outcome must be an Api or InvalidSpec '
+             'with a non-empty message and an input path; sampled failing texts go through python -m stone.cli (exit 1, path:line: error:).',
+        ref='3.1, 3.2, 4 (C03)',
+        note=TRUST + ' The specification contributes the input enumeration and the lexer crash conditions; which of the two outcomes a text gets is C01.'),
     'C04': dict(
         technique='TLA+ spec StoneWireMC (Enc/Dec/Vals) model-checked by TLC; every state replayed through generated Python classes',
         text='TLC explores every (schema, root type, boundary-biased valid value) of the StoneWireMC universe (76 schemas x 16 root '
